@@ -90,7 +90,7 @@ def parse_trace(h, obs):
                 b.diverged = "REPLICA-DIVERGED" in o
             steps.append(("block", b))
         elif ws[0] == "q":
-            steps.append(("q", ws[1], ws[2] if len(ws) > 2 else "", o))
+            steps.append(("q", ws[1], ws[2] if len(ws) > 2 else "", o, ws))
         elif ws[0] == "restart":
             steps.append(("restart", o))
         else:
@@ -527,6 +527,11 @@ def mon_c07(h, obs):
                                 continue
                         hits.append(Hit(f"C07/failed-tx-changed-state/{key_class(k)}",
                                         f"block {b.h} (all receipts failed) changed {k}: {d0.get(k)} -> {d1.get(k)}", detail=b.op))
+        # (c') a view execution leaves nothing in the view ledger either (the next view call would see it)
+        if st[0] == "q" and st[1] == "view":
+            mv = re.search(r"vstate=(\S+)", st[3])
+            if mv and mv.group(1) != "0/0":
+                hits.append(Hit("C07/view-left-state-in-view-ledger", f"after `{' '.join(st[4])}` the view ledger reads nonce/balance {mv.group(1)} for the simulated sender (expected 0/0)"))
         # (c) view executions between two dumps change nothing
         if st[0] == "q" and st[1] == "dump" and i + 1 < len(steps) and steps[i + 1][0] == "q" and steps[i + 1][1] == "view":
             j = i + 1
@@ -575,10 +580,14 @@ def mask_unmodelled(impl, model, ops=None):
             txs = [t.strip().split(" ") for t in ops[idx][len("block"):].split(" | ")]
             if len(ra) == len(rb) == len(txs):
                 for i, t in enumerate(txs):
-                    if t and t[0].startswith("sig:") and t[0] != "sig:ok" and ra[i].startswith("F:"):
+                    if t and t[0].startswith("sig:") and t[0] != "sig:ok" and ra[i].startswith("F:") and not ra[i].startswith("F:fee:"):
                         ra[i] = "F:bad-sig:0"
+                    if t and t[0] == "sig:nofrom" and rb[i].startswith("F:"):
+                        rb[i] = "F:bad-sig:0"      # the model words the sender-less failure as a fee failure of the empty account
                 a = ma.group(1) + " ".join(ra) + ma.group(3)
+                b = mb.group(1) + " ".join(rb) + mb.group(3)
                 ma = re.match(r"^(h=\d+ rc=\[)(.*?)(\].*)$", a)
+                mb = re.match(r"^(h=\d+ rc=\[)(.*?)(\].*)$", b)
         if ma and mb and "F:unmodelled:0" in mb.group(2):
             ra, rb = ma.group(2).split(" "), mb.group(2).split(" ")
             if len(ra) == len(rb):
